@@ -55,7 +55,21 @@ def reject_ok(e):
     return isinstance(e, pydantic.ValidationError)
 
 
-def try_paths(ctx, spec, cls, kwargs, exp, what, paths=("ctor", "dict", "json")):
+def _as_mapping(d, sel):
+    """a plain dict handed over as another Mapping (a read-only view, a layered configuration, a UserDict subclass)"""
+    import collections
+    import types
+
+    k = sel % 3
+    if k == 0:
+        return types.MappingProxyType(dict(d))
+    if k == 1:
+        items = list(d.items())
+        return collections.ChainMap(dict(items[: len(items) // 2]), dict(items[len(items) // 2 :]))
+    return collections.UserDict(d)
+
+
+def try_paths(ctx, spec, cls, kwargs, exp, what, paths=("ctor", "dict", "json", "mapping")):
     """Construct cls through the three in-memory paths; compare acceptance with exp."""
     import pydantic
 
@@ -73,6 +87,8 @@ def try_paths(ctx, spec, cls, kwargs, exp, what, paths=("ctor", "dict", "json"))
                 cls(**kwargs)
             elif p == "dict":
                 cls.model_validate({k: dump(v, "python") for k, v in kwargs.items()})
+            elif p == "mapping":
+                cls.model_validate(_as_mapping({k: dump(v, "python") for k, v in kwargs.items()}, len(json.dumps(spec, default=str))))
             else:
                 payload = json.dumps({k: dump(v, "json") for k, v in kwargs.items()}, default=str)
                 cls.model_validate_json(payload)
@@ -232,10 +248,13 @@ def check_ce(spec, ctx):
         return out
 
     results = {}
-    for p in ("ctor", "dict", "json"):
+    for p in ("ctor", "dict", "json", "mapping"):
         try:
             if p == "ctor":
                 data.ClipEvaluation(annotations=ca, predictions=cp, matches=build_matches("ctor"))
+            elif p == "mapping":
+                sel = len(json.dumps(spec, default=str))
+                data.ClipEvaluation.model_validate(_as_mapping({"annotations": ca.model_dump(), "predictions": cp.model_dump(), "matches": [_as_mapping(m, sel + i) for i, m in enumerate(build_matches("dict"))]}, sel + 1))
             elif p == "dict":
                 data.ClipEvaluation.model_validate({"annotations": ca.model_dump(), "predictions": cp.model_dump(), "matches": build_matches("dict")})
             else:
@@ -399,6 +418,16 @@ def check_project(spec, ctx):
     drop = {str(clip.uuid) for clip, (has_task, _) in zip(clips, spec["clips"]) if not has_task}
     doc["data"]["tasks"] = [t for t in doc["data"].get("tasks") or [] if t["clip"] not in drop]
     aoef_load_expect(ctx, spec, doc, exp, f"AnnotationProject membership {spec['clips']} in an AOEF document")
+    if not doc["data"]["tasks"]:
+        # no task at all: the "tasks" member may just as well be missing or null in a document written by another tool
+        for how in ("absent", "null"):
+            doc2 = copy.deepcopy(doc)
+            if how == "absent":
+                del doc2["data"]["tasks"]
+            else:
+                doc2["data"]["tasks"] = None
+            aoef_load_expect(ctx, spec, doc2, exp, f"AnnotationProject membership {spec['clips']} in an AOEF document whose tasks member is {how}")
+        ctx.label("aoef_tasks_member_absent_or_null")
 
 
 # ---------------------------------------------------------------------------------------------
